@@ -138,4 +138,38 @@ def modelDecide (indent len : Int) (allow : Bool) : Decision :=
     else .panic
   else .place (indent + 1) indent (indent - 1)
 
+/-! ## continuation rules -/
+
+/-- conditions over `dec.AllowMultiLine` and `previousNode != nil` -/
+inductive CExp where
+  | multi | prev
+  | and (a b : CExp)
+  | bad
+deriving Repr, DecidableEq, Inhabited
+
+def CExp.eval (multi prev : Bool) : CExp → Bool
+  | .multi => multi
+  | .prev => prev
+  | .and a b => a.eval multi prev && b.eval multi prev
+  | .bad => false
+
+def CExp.ok : CExp → Bool
+  | .bad => false
+  | .and a b => a.ok && b.ok
+  | _ => true
+
+/-- what `previousNode.RawSimpleNode().value += …` appends -/
+inductive SPiece where
+  | lit (bs : List UInt8)
+  | line
+  | bad
+deriving Repr, DecidableEq, Inhabited
+
+def SPiece.eval (line : Str) : SPiece → Str
+  | .lit bs => bs
+  | .line => line
+  | .bad => []
+
+def evalAppend (line : Str) (ps : List SPiece) : Str := ps.flatMap (SPiece.eval line)
+
 end Gedcom.DecodeLogic
